@@ -163,6 +163,12 @@ func shortCallee(c *ssa.CallCommon) string {
 	if b, ok := c.Value.(*ssa.Builtin); ok {
 		return b.Name()
 	}
+	// a func value read from a struct field is named after the field (x.cancel() -> "cancel")
+	if u, ok := c.Value.(*ssa.UnOp); ok {
+		if fa, ok := u.X.(*ssa.FieldAddr); ok {
+			return fieldName(fa)
+		}
+	}
 	return c.Value.Name()
 }
 
@@ -348,15 +354,27 @@ func (f *Frame) havocAllExceptLocals() {
 		}
 	}
 	before := f.cur.clone()
+	// monotone ghosts: a closed channel stays closed, a fired sync.Once stays fired
+	monoOld := map[string]string{}
+	for _, k := range []string{"ChanClosed", "OnceDone"} {
+		if _, ok := f.vc.comps[k]; ok {
+			monoOld[k] = f.vc.get(f.cur, k)
+		}
+	}
 	f.vc.havocAll(f.cur)
 	for k, v := range keep {
 		f.cur.comp[k] = v
+	}
+	for k, old := range monoOld {
+		nw := f.vc.get(f.cur, k)
+		f.vc.assume(fmt.Sprintf("(forall ((r Int)) (! (=> (select %s r) (select %s r)) :pattern ((select %s r))))", old, nw, nw))
 	}
 	for k, old := range immOld {
 		f.havocKeepOld(k, old, oldNext)
 	}
 	f.restorePrivate(before)
 	f.vc.assume(fmt.Sprintf("(>= %s %s)", f.vc.get(f.cur, "next"), oldNext))
+	f.assumeRely()
 }
 
 // ---- contract application
@@ -1782,6 +1800,11 @@ func (f *Frame) siteMapUpdate(x *ssa.MapUpdate, h, k, v Val) {
 func (f *Frame) siteCall(c *ssa.CallCommon, pos token.Pos) {
 	rc := f.rootContract()
 	defer f.flagEvent("call:" + shortCallee(c)) // the event takes effect after the site conditions were evaluated
+	if c.IsInvoke() {
+		if nt, ok := c.Value.Type().(*types.Named); ok {
+			defer f.flagEvent("call:" + nt.Obj().Name() + "." + c.Method.Name()) // interface-qualified form
+		}
+	}
 	if len(rc.Sites) == 0 {
 		return
 	}
